@@ -218,8 +218,8 @@ func freshClonePerCall(c *core.Ctx) {
 		if !strings.HasPrefix(fn.Name(), "clone") && !strings.HasPrefix(fn.Name(), "Clone") {
 			continue
 		}
-		if fn == cloneM {
-			continue
+		if fn == cloneM || cloneModelOf(p).IsBuilder(fn) {
+			continue // Clone itself and the helpers that build the new VM for it: the VM is made in that very call
 		}
 		// method calls on a VirtualMachine value other than the receiver
 		for _, b := range fn.Blocks {
